@@ -13,25 +13,7 @@ fn universe(b: &[we::Instruction]) -> Vec<u8> { universe_p(Profile::Full, b) }
 
 fn reenc(op: &Operator<'static>) -> Option<we::Instruction<'static>> { RoundtripReencoder.instruction(op.clone()).ok() }
 
-/// Find an operand prefix (constants) that makes `consts; op; unreachable` valid in the universe.
-fn find_operands(ins: &we::Instruction<'static>, hint: Option<&Vec<u8>>, feats: WasmFeatures, budget: &mut u64) -> Option<Vec<u8>> {
-    let try_one = |ops: &[u8], budget: &mut u64| -> bool {
-        *budget += 1;
-        let mut body: Vec<we::Instruction> = ops.iter().map(|c| const_of(*c)).collect();
-        body.push(ins.clone()); body.push(we::Instruction::Unreachable);
-        amod::validate(&universe(&body), feats).is_ok()
-    };
-    if let Some(h) = hint { if try_one(h, budget) { return Some(h.clone()); } }
-    for len in 0..=4usize {
-        let mut idx = vec![0u8; len];
-        loop {
-            if try_one(&idx, budget) { return Some(idx); }
-            let mut k = 0; loop { if k == len { break; } idx[k] += 1; if idx[k] < 7 { break; } idx[k] = 0; k += 1; }
-            if k == len { break; }
-        }
-    }
-    None
-}
+fn find_operands(ins: &we::Instruction<'static>, hint: Option<&Vec<u8>>, _feats: WasmFeatures, budget: &mut u64) -> Option<Vec<u8>> { crate::sigs::find_operands(Profile::Full, ins, hint, budget) }
 
 fn body_of(bytes: &[u8], idx: usize) -> Result<amod::ABody, String> { let m = amod::decode(bytes)?; m.code.get(idx).cloned().ok_or_else(|| "no such body".to_string()) }
 
